@@ -666,6 +666,11 @@ static int cmd_check(std::map<std::string, std::string> & args)
     fflush(stdout);
   }
 
+  if (args.count("trace-out")) {
+    // one line per executed run: the digest of everything that run observed (determinism self-test)
+    std::ofstream tf(args["trace-out"].c_str());
+    for (auto & sm : traces) for (auto & it : sm.second) tf << sm.first << " " << it.first << " " << it.second << "\n";
+  }
   double wall = now_s() - t_start;
   // ---- partial evidence ----------------------------------------------------------------
   if (!out_path.empty()) {
